@@ -312,7 +312,7 @@ class Model:
         s.tdm = (s.type["name"] == "tdm")
         s.params = []   # parameters written in metadata are outside every property's quantifier
         for path in sc.get("includes", []):
-            sub_ast = s.library[path]
+            sub_ast = s.library[(sc["name"], path)] if (sc["name"], path) in s.library else s.library[path]   # (includer, string) wins: the same string may name different files in different directories
             sub = Model(s.library).run(sub_ast)
             s.includes.update(sub.includes)
             s.includes[sub.name] = sub
